@@ -11,7 +11,8 @@
 
    NOT covered by any of this (see Props/C03.v): panics inside wasmparser itself, allocation failure (e.g. a
    Vec::with_capacity driven by a huge count), stack exhaustion on deeply nested components. *)
-From Coq Require Import List NArith Bool Lia.
+From Coq Require Import List NArith Bool Lia String.
+Open Scope string_scope.
 From Orca Require Import Base.Util Model.ParseGlue Gen.GenInventory Model.PanicSites Check.CheckParse.
 Import ListNotations.
 Local Open Scope N_scope.
@@ -109,7 +110,7 @@ Qed.
 Lemma finish_known : forall st, known_out (finish st).
 Proof.
   intro st; unfold finish.
-  destruct (negb (ms_code_count st =? ms_ncode st) || negb (ms_code_count st =? N.of_nat (length (ms_funcs st)))); [exact I|].
+  destruct (negb (ms_code_count st =? ms_ncode st) || negb (ms_code_count st =? N.of_nat (List.length (ms_funcs st)))); [exact I|].
   destruct (ms_data_count st) as [d|]; [destruct (negb (d =? ms_ndata st)); [exact I|]|]; apply check_func_types_known.
 Qed.
 Lemma scan_known : forall mm l st, known_out (scan mm st l).
@@ -222,6 +223,22 @@ Qed.
 Definition status_is_unknown (s : status) : bool := match s with Unknown => true | _ => false end.
 Definition reachable_classes : list N :=
   flat_map (fun p => match snd p with Reachable k => [k] | _ => [] end) site_status.
+
+(* sites of the generated inventory without a status, and status entries for sites that are no longer generated.
+   These two are stated first because their failure message names the offending sites:
+   "Unable to unify [] with [{| s_file := "src/ir/module/mod.rs"; s_fn := "Module::parse_internal"; s_kind := "unwrap"; ... |}]" *)
+Definition site_eqb (a b : site) : bool :=
+  String.eqb (s_file a) (s_file b) && String.eqb (s_fn a) (s_fn b) && String.eqb (s_kind a) (s_kind b)
+  && N.eqb (s_ord a) (s_ord b) && String.eqb (s_text a) (s_text b).
+Definition sites_without_status : list site :=
+  filter (fun s => negb (existsb (site_eqb s) (map fst site_status))) gen_sites.
+Definition stale_status_entries : list site :=
+  filter (fun s => negb (existsb (site_eqb s) gen_sites)) (map fst site_status).
+
+Theorem inventory_no_site_without_status : sites_without_status = [].
+Proof. vm_compute. reflexivity. Qed.
+Theorem inventory_no_stale_status : stale_status_entries = [].
+Proof. vm_compute. reflexivity. Qed.
 
 (* the status table lists exactly the generated sites, in the generated order: a site added to (or removed from)
    the parse path of /repo changes Gen/GenInventory.v and breaks this proof *)
